@@ -8,6 +8,7 @@ pub mod c07;
 pub mod c08;
 pub mod c09;
 pub mod c10;
+pub mod c11;
 pub mod c12;
 
 use crate::Ctx;
@@ -25,6 +26,7 @@ pub fn run(id: &str, ctx: &Ctx) -> i32 {
         "C08" => c08::run(ctx),
         "C09" => c09::run(ctx),
         "C10" => c10::run(ctx),
+        "C11" => c11::run(ctx),
         "C12" => c12::run(ctx),
         _ => {
             eprintln!("unknown property {}", id);
@@ -45,6 +47,7 @@ pub fn replay(id: &str, ctx: &Ctx, v: &Value) -> i32 {
         "C08" => c08::replay(ctx, v),
         "C09" => c09::replay(ctx, v),
         "C10" => c10::replay(ctx, v),
+        "C11" => c11::replay(ctx, v),
         "C12" => c12::replay(ctx, v),
         _ => {
             eprintln!("unknown property {}", id);
